@@ -17,8 +17,8 @@ CHECKS.update({
 CHECKS.update({
  "C06": ("Coq: month-energy theorem for ALL rational monthly data (all peak-day orderings, pulses present or not, explicit degenerate-duration term), horizon theorem by induction over any number of months; the whole 230-line process_month_loads is translated to Gallina on every run and compared, with the hand model, against the real method segment by segment",
          "theorems exclude the documented 1e-6 clamp of a negative pulse start; float rounding not modelled (exact Fraction stream + float stream with 1e-9 tolerance)", "6 C06"),
- "C07": ("Coq: retention window, pulse presence/sign/length/centre theorems, same-day abutment, no-pulse theorems on the month model; same correspondence; magnitudes, days, durations checked on real HybridLoad objects",
-         "the duration's definition via the two-day simulation (Cullin & Spitler) is observed on real objects, not proved; durations > 48 h for sub-100 W loads are a listed known finding", "6 C07"),
+ "C07": ("Coq: retention window, pulse presence/sign/length/centre theorems, same-day abutment, no-pulse theorems on the month model; the two-day window of every peak day (day before + peak day, year wrapping) proved on process_two_day_loads REGENERATED from the source for every year of loads and every peak day; same correspondence; magnitudes, days, durations checked on real HybridLoad objects",
+         "the value of a duration (Cullin & Spitler inverse through the short-time response) is recomputed from its definition by the check on real objects, not proved; durations > 48 h for sub-100 W peaks are a listed known finding", "6 C07"),
  "C08": ("Coq: calendar helpers regenerated from the source = closed form for every month of a 50-year horizon (complete finite domain), closed form periodic for every month number, every month end a breakpoint (induction over month lists), replication, strict monotonicity under disjoint windows; same correspondence",
          "single-year load list (the tool's only mode); leap years not modelled (the tool uses 8760-hour years)", "6 C08"),
 })
